@@ -63,6 +63,7 @@ def sumFrom {α : Type} [RNum α] (init : α) (xs : List α) : α := xs.foldl ad
 
 inductive Err where
   | irfLength          -- ModelError: len(centers) != len(widths) and none of them is 1
+  | scaleLength        -- ModelError: len(scales) != number of Gaussians (fix D24, /repo 4bdb9de)
   | noShift (i : Nat)  -- ModelError: no shift parameter for index i
   | noDispersionCenter -- ModelError: dispersion coefficients without dispersion center
   | noIndex            -- TypeError: index-dependent quantity asked for without a global index
@@ -75,6 +76,7 @@ inductive Err where
 
 def Err.show : Err → String
   | .irfLength => "irfLength"
+  | .scaleLength => "scaleLength"
   | .noShift i => s!"noShift:{i}"
   | .noDispersionCenter => "noDispersionCenter"
   | .noIndex => "noIndex"
@@ -132,9 +134,10 @@ def Irf.baseParameter (irf : Irf α) (idx : Option Nat) : Except Err (IrfPar α)
   | .error e => .error e
   | .ok (cs, ws) =>
     let scales : List α := irf.scales.getD (cs.map (fun _ => ofRat 1))
-    match irf.shifts with
-    | none => .ok ⟨cs, ws, scales, ofRat 0⟩
-    | some sh =>
+    match decide (scales.length = cs.length), irf.shifts with
+    | false, _ => .error .scaleLength
+    | true, none => .ok ⟨cs, ws, scales, ofRat 0⟩
+    | true, some sh =>
       match idx with
       | none => .error .noIndex
       | some i =>
